@@ -4,6 +4,30 @@
 import json,glob,sys
 prop=sys.argv[1]
 ROOT={
+ 'jalr':'MIPS: the branch part of a pair is emitted after the delay slot, so the link register / indirect target / bltzal-bgezal condition are taken from the state AFTER the delay-slot instruction and the link value is not visible to it',
+ 'jr':'MIPS: the indirect target is read after the delay-slot instruction executed',
+ 'jal':'MIPS: the link register is written after the delay-slot instruction (which must already see it)',
+ 'bal':'MIPS: the link register is written after the delay-slot instruction (which must already see it)',
+ 'bltzal':'MIPS: condition and link are evaluated after the delay-slot instruction',
+ 'bgezal':'MIPS: condition and link are evaluated after the delay-slot instruction',
+ 'lwl':'MIPS lwl/lwr/swl/swr ignore the alignment/endianness merge semantics',
+ 'lwr':'MIPS lwl/lwr/swl/swr ignore the alignment/endianness merge semantics',
+ 'swl':'MIPS lwl/lwr/swl/swr ignore the alignment/endianness merge semantics',
+ 'swr':'MIPS lwl/lwr/swl/swr ignore the alignment/endianness merge semantics',
+ 'blr':'PowerPC blr/bdnzl are lifted as no-ops that fall through',
+ 'bdnzl':'PowerPC blr/bdnzl are lifted as no-ops that fall through',
+ 'bdnzl-':'PowerPC blr/bdnzl are lifted as no-ops that fall through',
+ 'bdnzl+':'PowerPC blr/bdnzl are lifted as no-ops that fall through',
+ 'rlwinm':'PowerPC rlwinm mask generation is wrong for some MB/ME (e.g. ME=31, MB=ME)',
+ 'rlwinm.':'PowerPC rlwinm mask generation / Rc=1 CR0 update',
+ 'slwi':'PowerPC rlwinm mask generation is wrong for some MB/ME',
+ 'add.':'PowerPC record forms (Rc=1) do not update CR0',
+ 'subf.':'PowerPC record forms (Rc=1) do not update CR0',
+ 'addze':'PowerPC addze/srawi do not update the carry bit correctly',
+ 'addze.':'PowerPC addze/srawi carry, Rc=1 CR0',
+ 'srawi':'PowerPC addze/srawi do not update the carry bit correctly',
+ 'srawi.':'PowerPC addze/srawi carry, Rc=1 CR0',
+ 'mtctr':'PowerPC mtctr reads its operand as an immediate',
  'shld':'shld/shrd: count not masked to 5/6 bits, flags not preserved for a zero count, undefined-count cases',
  'shrd':'shld/shrd: count not masked to 5/6 bits, flags not preserved for a zero count, undefined-count cases',
  'rol':'rol/ror: flags are written even when the masked count is 0, OF is not MSB xor CF',
@@ -30,7 +54,7 @@ for f in sorted(glob.glob(f'/verif/replays/{prop}-*.json')):
     parts=d['key'].split('|')
     mn=parts[2] if len(parts)>2 else ''
     c=d['case']
-    ex=c.get('il_bytes') or c.get('bytes') or ''
+    ex=c.get('il_bytes') or c.get('bytes') or c.get('word') or ''
     root=ROOT.get(mn.split()[-1], 'disagrees with the host CPU')
     k['findings'].append({"property":prop,"key":d['key'],"what":f"{mn}: {root}; e.g. bytes {ex}: {d['what'][:160]}"})
     n+=1
